@@ -148,6 +148,41 @@ theorem request_assembly_means_op : Statement_request_assembly_means_op := by
   · intro c u dg ng h
     simp [Conn.update, h]
 
+/-! ### `_is_contextual`: which graph a read addresses -/
+
+/-- A store that is not context aware never names a graph; a context-aware one names exactly the graphs that are
+    neither absent, nor `"__UNION__"`, nor the dataset's default-graph identifier — and then the request the connector
+    assembles carries that identifier as its `default-graph-uri`, otherwise only the caller's own parameters. -/
+def Statement_context_argument_reaches_endpoint : Prop :=
+  (∀ a, isContextual false a = false) ∧
+  (isContextual true .none = false ∧ isContextual true (.str sUnion) = false ∧
+   isContextual true (.str Tables.datasetDefaultGraphId) = false ∧
+   isContextual true (.graph Tables.datasetDefaultGraphId) = false) ∧
+  (∀ i, i ≠ Tables.datasetDefaultGraphId → isContextual true (.graph i) = true ∧
+    (i ≠ sUnion → isContextual true (.str i) = true)) ∧
+  (∀ (c : Conn) (ca : Bool) (a : CtxArg) (q : Str), ConnOK c → c.queryEndpoint ≠ [] →
+    ∃ r p, c.query q (storeDG ca a) = .ok r ∧ serverRead r = some p ∧ p.text = q ∧ p.path = c.queryEndpoint ∧
+      (isContextual ca a = true → dget p.params sDefaultGraphUri = a.ident) ∧
+      (isContextual ca a = false → p.params = queryParams c .none))
+
+theorem context_argument_reaches_endpoint : Statement_context_argument_reaches_endpoint := by
+  refine ⟨?_, ?_, ?_, ?_⟩
+  · intro a; simp [isContextual]
+  · refine ⟨by simp [isContextual], by simp [isContextual], by simp [isContextual], by simp [isContextual]⟩
+  · intro i hi
+    refine ⟨by simp [isContextual, hi], fun hu => by simp [isContextual, hi, hu]⟩
+  · intro c ca a q ok hne
+    obtain ⟨r, h1, h2, h3⟩ := request_assembly_means_op.1 c q (storeDG ca a) ok hne
+    refine ⟨r, _, h1, h2, rfl, rfl, ?_, ?_⟩
+    · intro hc
+      cases a with
+      | none => simp [isContextual] at hc
+      | str s => simpa [storeDG, hc, CtxArg.ident] using h3 s (by simp [storeDG, hc, CtxArg.ident])
+      | graph i => simpa [storeDG, hc, CtxArg.ident] using h3 i (by simp [storeDG, hc, CtxArg.ident])
+    · intro hc
+      simp only [storeDG, hc]
+      cases hm : c.method <;> simp [queryParams, hm, dgParams]
+
 /-! ### non-vacuity: a concrete configuration (caller params and headers, a named graph, a text with a space, `&`, `=`,
     `%`, `+`, a non-ASCII and a non-BMP character) for each method -/
 
